@@ -31,6 +31,9 @@ contract(CONN + '._receive_headers_frame', props=['C06', 'C07', 'C09', 'C10', 'C
         # C10: the acknowledged local limit
         ('local-concurrency-limit-enforced', 'implies(not exists, open_in + 1 <= max_concurrent(self.local_settings))', ['C10']),
         # C07 / C06: the event list
+        ('closed-connection-processes-nothing', 'cst != C_CLOSED', ['C19']),
+        # C27: closed streams are moved out of the live table before a new one is created
+        ('cleanup-precedes-creation', 'implies(not exists, all(k == sid or self.streams[k].state_machine.state != StreamState.CLOSED for k in self.streams))', ['C27', 'C10']),
         ('no-frames', 'len(result[0]) == 0', ['C06']),
         ('first-event-kind', 'len(result[1]) >= 1 and class_name(result[1][0]) in ("RequestReceived", "ResponseReceived", "TrailersReceived", "InformationalResponseReceived")', ['C07']),
         ('first-event-stream', 'result[1][0].stream_id == sid', ['C07']),
@@ -89,11 +92,12 @@ contract(CONN + '._receive_push_promise_frame', props=['C22', 'C20', 'C09', 'C06
          'parent_reset_by_us': '((%s.stream_closed_by == StreamClosedBy.SEND_RST_STREAM) if exists else ((frame.stream_id in self._closed_streams) and self._closed_streams[frame.stream_id] == StreamClosedBy.SEND_RST_STREAM))' % FSM},
     ensures=[
         ('push-must-be-enabled', 'push_on', ['C22']),
+        ('closed-connection-processes-nothing', 'cst != C_CLOSED', ['C19']),
         ('only-clients-accept-pushes', 'implies(%s, self.config.client_side)' % ACCEPTED, ['C22']),
         ('either-refused-or-accepted', '(%s) or (%s)' % (REFUSED, ACCEPTED), ['C22', 'C20']),
         # a push is refused (RST_STREAM REFUSED_STREAM on the promised id, no event, no error) only when the parent
         # was reset by this endpoint, or the peer pushed on a stream it had itself already ended (leniency L2)
-        ('refused-only-on-streams-we-reset', 'implies(%s, parent_reset_by_us or (exists and kp == K_RST))' % REFUSED, ['C20', 'C22']),
+        ('refused-only-on-streams-we-reset', 'implies(%s, parent_reset_by_us or (exists and kp == K_RST))' % REFUSED, ['C20', 'C22', 'C06']),
         ('refusal-creates-nothing', 'implies(%s, self.highest_inbound_stream_id == wm_in and all(k in old(self.streams) for k in self.streams))' % REFUSED, ['C20', 'C27']),
         ('accepted-on-client-initiated-parent', 'implies(%s, exists and sid %% 2 == 1 and kp == K_OK)' % ACCEPTED, ['C22', 'C06']),
         ('accepted-event', 'implies(%s, len(result[1]) == 1 and class_name(result[1][0]) == "PushedStreamReceived" and result[1][0].parent_stream_id == sid and result[1][0].pushed_stream_id == pid)' % ACCEPTED, ['C22', 'C07']),
